@@ -8,6 +8,7 @@ import StamModel.Driver.Tv
 import StamModel.Driver.Tp
 import StamModel.Driver.Ql
 import StamModel.Driver.Wj
+import StamModel.Driver.Cc
 /-
   Line-protocol driver: one request per line on stdin, one answer per line on stdout.
   Built as the `stamdriver` executable (core Lean only).
@@ -27,6 +28,7 @@ def step (line : String) : String :=
   | "tp" :: args => tp args
   | "ql" :: args => ql args
   | "wj" :: args => wj args
+  | "cc" :: args => cc args
   | ["reset"] => "ok"
   | _ => "bad-op"
 
